@@ -10,6 +10,7 @@ DECIDED = ("R1 every entry of the knight/king/pawn-attack/pawn-push/rook-ray/bis
            "geometric definition on the 8x8 grid (no wrap-around; between/line empty for non-aligned pairs); R2 the castling, promotion, back-rank and "
            "double-step constants equal their definitions; R3 each accessor returns the table entry for its arguments and the pawn helpers/distance "
            "compute the stated formula (normalised MIR term).")
+DECIDED = DECIDED + ' The pawn helpers (pawn_attacks, pawn_attacks_moves, pawn_quiets, pawn_moves) are decided by evaluating their extracted summaries on every square, both colours and a set of occupancies containing the blocking squares, against the pawn rules (captures only onto occupied squares, a push blocked by any piece, the double step by either square).'
 NOT_DECIDED = ("'the checked-in tables agree with what the table generator computes' is declined: that needs the generator to run. "
                "The tables are instead proved equal to the definitions the generator is meant to implement.")
 EXPLANATION = ("Constant-data rules: the bytes of each static/const are the compiler's own evaluation of the item; each is decoded with the enum "
